@@ -551,25 +551,41 @@ impl Ser {
                 ctx.violation("outputs() panicked", format!("C16/outputs/panic/{}", p.sig()), base(p.short()));
             }
             Ok(mut g) => {
-                // the top element's extra in-scope bindings come first after StartTagOpen, as a set
+                // the top element: its Prefix events are its own declarations (in their order) plus the
+                // inherited in-scope bindings it does not declare itself (as a set, anywhere among them)
                 if sub.kind == AKind::Elem && !extra.is_empty() {
-                    let n_extra = extra.len();
-                    if g.len() < 1 + n_extra {
-                        ctx.violation("output-event stream is too short", "C16/outputs/too-short".to_string(), base(format!("{} events", g.len())));
-                        return;
+                    let n_own = sub.decls.len();
+                    let mut j = 1;
+                    while j < g.len() && matches!(g[j], Ev::Prefix(..)) {
+                        j += 1;
                     }
-                    let mut seg: Vec<Ev> = g.drain(1..1 + n_extra).collect();
+                    let seg: Vec<Ev> = g.drain(1..j).collect();
+                    let is_own = |e: &Ev| matches!(e, Ev::Prefix(_, p, _) if sub.decls.iter().any(|(dp, _)| dp == p));
+                    let own: Vec<Ev> = seg.iter().filter(|e| is_own(e)).cloned().collect();
+                    let mut inherited: Vec<Ev> = seg.iter().filter(|e| !is_own(e)).cloned().collect();
                     let key = |e: &Ev| format!("{:?}", e);
-                    seg.sort_by_key(key);
+                    inherited.sort_by_key(key);
                     let mut ex = extra.clone();
                     ex.sort_by_key(key);
-                    if seg != ex {
+                    if inherited != ex {
                         ctx.violation(
                             "the top element's extra in-scope bindings are not what the scope gives",
                             "C16/outputs/top-element-extra-prefixes".to_string(),
-                            base(format!("got {:?}, expected (as a set) {:?}", seg, ex)),
+                            base(format!("got {:?}, expected (as a set) {:?}", inherited, ex)),
                         );
                         return;
+                    }
+                    // put the own declarations back where the per-node grammar expects them
+                    if own.len() != n_own {
+                        ctx.violation(
+                            "the top element's own declarations are not all listed",
+                            "C16/outputs/top-element-own-prefixes".to_string(),
+                            base(format!("got {:?}", own)),
+                        );
+                        return;
+                    }
+                    for (k, e) in own.into_iter().enumerate() {
+                        g.insert(1 + k, e);
                     }
                 }
                 if g != want {
